@@ -37,6 +37,8 @@ class Flow:
         self._phis = {}
         self._phi_pending = {}
         self._reach_tok = {}
+        self._mut_calls = {}
+        self._ftpl = {}
         # locals whose own storage is borrowed mutably (a reborrow `&mut (*p)` borrows the pointee, not p)
         self.mem = set()
         for n in body.nodes:
@@ -72,14 +74,20 @@ class Flow:
             d = n.ev.get("dest")
         else:
             return False
-        return d is not None and d["l"] == l
+        if d is None or d["l"] != l:
+            return False
+        # a store *through* a reference local writes the pointee, not the local
+        return not (d["p"] and d["p"][0] == "*")
 
-    def reaching(self, l):
-        """token of the definition of local l that reaches the entry of every node: ('entry',) | ('def', p) | ('phi', M)"""
+    def reaching(self, l, defines=None):
+        """token of the definition of local l (or of the pseudo-variable keyed l, with its own `defines`) that reaches the
+        entry of every node: ('entry',) | ('def', p) | ('phi', M)"""
         r = self._reach_tok.get(l)
         if r is not None:
             return r
         b = self.b
+        if defines is None:
+            defines = lambda n_: self.defines(n_, l)
         TOP = None
         tin = {}
         tout = {}
@@ -91,7 +99,7 @@ class Flow:
             n = work.pop()
             inq.discard(n)
             ti = tin.get(n, TOP)
-            to = ("def", n) if self.defines(n, l) else ti
+            to = ("def", n) if defines(n) else ti
             if tout.get(n, "?") == to and n in tout:
                 continue
             tout[n] = to
@@ -113,6 +121,105 @@ class Flow:
                         work.append(sx)
         self._reach_tok[l] = (tin, tout)
         return tin, tout
+
+    def mut_calls_of(self, root):
+        """call nodes that receive a `&mut` reference derived from argument `root` (they may rewrite any of its fields)"""
+        r = self._mut_calls.get(root)
+        if r is None:
+            r = set()
+            for n in self.b.calls():
+                for a, t in zip(n.ev["args"], n.ev.get("arg_tys", [])):
+                    if not t.startswith("&mut "):
+                        continue
+                    pl = op_place(a)
+                    if pl is None:
+                        continue
+                    if pl["l"] == root and not [x for x in pl["p"] if x != "*"]:
+                        r.add(n.id)
+                        continue
+                    if pl["p"]:
+                        continue
+                    ds = self.b.defs.get(pl["l"], [])
+                    if len(ds) == 1:
+                        dn = self.b.nodes[ds[0]]
+                        if dn.kind == "assign" and dn.ev.get("rv") in ("ref", "rawptr", "use"):
+                            src = dn.ev.get("pl") or op_place(dn.ev.get("a"))
+                            if src and src["l"] == root and not [x for x in src["p"] if x != "*"]:
+                                r.add(n.id)
+            self._mut_calls[root] = r
+        return r
+
+    def field_store(self, p, root, fname):
+        """node p stores to (*root).fname : returns 'full' / 'partial' / None"""
+        n = self.b.nodes[p]
+        d = None
+        if n.kind == "assign":
+            d = n.ev["dst"]
+        elif n.kind == "call":
+            d = n.ev.get("dest")
+        if not d or d["l"] != root:
+            return None
+        pr = [x for x in d["p"] if x != "*"]
+        if pr and isinstance(pr[0], dict) and "f" in pr[0] and pr[0].get("n", str(pr[0]["f"])) == fname:
+            return "full" if len(pr) == 1 else "partial"
+        return None
+
+    def field_token(self, root, fname, n):
+        key = ("fld", root, fname)
+        mc = self.mut_calls_of(root)
+        tin, tout = self.reaching(key, lambda p: p in mc or self.field_store(p, root, fname) is not None)
+        return tin.get(n)
+
+    def field_template(self, root, fname):
+        """a projection element `{f, n, adt, ty}` with which this body reads / writes (*root).fname, if any"""
+        k = (root, fname)
+        if k in self._ftpl:
+            return self._ftpl[k]
+        found = None
+        def scan_place(pl):
+            nonlocal found
+            if found is None and pl and pl.get("l") == root:
+                pr = [x for x in pl["p"] if x != "*"]
+                if pr and isinstance(pr[0], dict) and "f" in pr[0] and pr[0].get("n", str(pr[0]["f"])) == fname:
+                    found = pr[0]
+        for n in self.b.nodes:
+            ev = n.ev
+            for key in ("dst", "dest", "pl"):
+                if isinstance(ev.get(key), dict):
+                    scan_place(ev[key])
+            for key in ("a", "b", "discr", "cond"):
+                if isinstance(ev.get(key), dict):
+                    scan_place(op_place(ev[key]))
+            for a in ev.get("args", []) or []:
+                scan_place(op_place(a))
+            for a in ev.get("ops", []) or []:
+                scan_place(op_place(a))
+            if found is not None:
+                break
+        self._ftpl[k] = found
+        return found
+
+    def field_value_at(self, root, fname, n):
+        """value of (*root).fname on entry to node n"""
+        t = self.field_template(root, fname)
+        if t is None:
+            # never mentioned in this body: only `&mut` calls can have changed it
+            b = self.b
+            base = E("arg", ty=b.local_ty(root), extra=(root, b.local_name(root)))
+            tok = self.field_token(root, fname, n) if self.mut_calls_of(root) else ("entry",)
+            ver = None if (tok is None or tok[0] == "entry") else (("at", tok[1]) if tok[0] == "def" else tok)
+            return E("field", [base], ty=None, extra=(None, fname, ver))
+        return self.place({"l": root, "p": ["*", t]}, n)
+
+    def field_after_call(self, root, fname, call_nid):
+        """the opaque value of (*root).fname right after the `&mut` call at call_nid"""
+        t = self.field_template(root, fname)
+        b = self.b
+        if t is None:
+            base = E("arg", ty=b.local_ty(root), extra=(root, b.local_name(root)))
+            return E("field", [base], ty=None, extra=(None, fname, ("at", call_nid)))
+        base = E("arg", ty=b.local_ty(root), extra=(root, b.local_name(root)))
+        return E("field", [base], ty=t.get("ty"), extra=(t.get("adt") or t.get("closure") or ("tuple" if t.get("tuple") else None), fname, ("at", call_nid)))
 
     def tok_value(self, l, tok, at):
         b = self.b
@@ -152,9 +259,10 @@ class Flow:
         if l in self.mem:
             return E("mem", ty=b.local_ty(l), extra=(l, n))
         ds = b.defs.get(l, [])
-        if len(ds) == 1 and not b.pdefs.get(l) and not (1 <= l <= b.argc):
+        pd = [p for p in b.pdefs.get(l, []) if self.defines(p, l)]
+        if len(ds) == 1 and not pd and not (1 <= l <= b.argc):
             return self.defval(ds[0], l)
-        if not ds and not b.pdefs.get(l):
+        if not ds and not pd:
             if 1 <= l <= b.argc:
                 return E("arg", ty=b.local_ty(l), extra=(l, b.local_name(l)))
             return E("undef", ty=b.local_ty(l), extra=(l,))
@@ -238,6 +346,23 @@ class Flow:
                         e = e.a[p["f"]]
                         continue
                     fname = p.get("n", str(p["f"]))
+                    if e.k == "arg" and (fname in self.stored_fields or self.mut_passed or self.mut_calls_of(e.extra[0])):
+                        # a field of the struct an argument points to: version it by the store / `&mut` call that reaches here
+                        root = e.extra[0]
+                        tok = self.field_token(root, fname, n)
+                        if tok is not None and tok[0] == "entry":
+                            ver = None
+                        elif tok is not None and tok[0] == "def":
+                            if self.field_store(tok[1], root, fname) == "full" and self.b.nodes[tok[1]].kind == "assign":
+                                e = self.nodeval(tok[1])
+                                continue
+                            ver = ("at", tok[1])
+                        elif tok is not None:
+                            ver = tok
+                        else:
+                            ver = n
+                        e = E("field", [e], ty=p.get("ty"), extra=(p.get("adt") or p.get("closure") or ("tuple" if p.get("tuple") else None), fname, ver))
+                        continue
                     stable = not (fname in self.stored_fields or self.mut_passed) or e.k in ("call", "downcast", "field") and fname.isdigit()
                     ver = None if stable else n
                     e = E("field", [e], ty=p.get("ty"), extra=(p.get("adt") or p.get("closure") or ("tuple" if p.get("tuple") else None), fname, ver))
@@ -587,6 +712,8 @@ class Ctx:
                             return self.len_of(src)
             if path_matches(nm, "vec::from_elem") and len(base.a) == 2:
                 return self.L(base.a[1])
+            if (path_matches(nm, "Vec::new") or path_matches(nm, "Vec::with_capacity") or path_matches(nm, "Bytes::new")) and "Vec" in (base.ty or "Vec"):
+                return const(0)
             if path_matches(nm, "slice::to_vec") or path_matches(nm, "Vec::from") or path_matches(nm, "Bytes::copy_from_slice"):
                 return self.len_of(base.a[0])
             m = re.search(r"\[u8; (\d+)\]", base.ty or "")
@@ -1053,8 +1180,10 @@ CMP = {"Lt", "Le", "Gt", "Ge", "Eq", "Ne"}
 
 
 class Engine:
-    def __init__(self, prog, contracts=None, inline=None, ensures=None):
+    def __init__(self, prog, contracts=None, inline=None, ensures=None, posts=None):
         self.prog = prog
+        self.posts = posts or {}             # fn pattern -> [[(coef, spec) ..., const]]  facts holding whenever the fn returns Ok
+        self.invariants = {}                 # type name -> rows over the fields of `self` (argument 1)
         self.contracts = contracts or {}     # fn pattern -> [(kind, arg, rel, value)]
         self.inline_tbl = inline or []       # fn patterns that may be summarised by their return expression
         self.ensures = ensures or {}         # fn pattern -> [("len", rel, value)]
@@ -1408,6 +1537,21 @@ class Engine:
         if dty == "bool":
             truth = not (lab == 0)
             return self.cmp_facts(ctx, d, truth)
+        if d.k == "discr" and d.a and self.posts:
+            x = d.a[0]
+            via_try = False
+            for _ in range(5):
+                if x.k == "call" and x.a and path_matches(x.extra, "Try::branch"):
+                    via_try = True
+                    x = x.a[0]
+                elif x.k == "call" and x.a and path_matches(x.extra, "Result::map_err"):
+                    x = x.a[0]
+                else:
+                    break
+            if x.k == "call" and lab == 0:      # ControlFlow::Continue / Result::Ok both have discriminant 0
+                pf = self.call_post_facts(ctx, x)
+                if pf:
+                    return pf
         if d.k == "discr" and d.a:
             inner = d.a[0]
             for _ in range(4):
@@ -1445,6 +1589,8 @@ class Engine:
         try:
             b = ctx.b
             out = list(self.contract_facts(ctx))
+            if self.invariants:
+                out += self.inv_state_facts(ctx, p)
             for (s, i), dom in self.edge_dom(b).items():
                 if p in dom:
                     out += self.edge_facts(ctx, s, i)
@@ -1468,6 +1614,156 @@ class Engine:
         return out
 
     # ---- obligations
+    def post_lin(self, ctx, fact, arg_val, field_val):
+        """instantiate a postcondition row: specs ('arg', i) | ('field', root, name) | ('lenfield', root, name)"""
+        l = const(fact[-1])
+        for (coef, spec) in fact[:-1]:
+            if spec[0] == "arg":
+                v = arg_val(spec[1])
+                if v is None:
+                    return None
+                l = l + ctx.L(v).scale(coef)
+            else:
+                v = field_val(spec[1], spec[2])
+                if v is None:
+                    return None
+                l = l + (ctx.len_of(v) if spec[0] == "lenfield" else ctx.L(v)).scale(coef)
+        return l
+
+    def inv_type(self, body):
+        """the invariant-carrying type whose method `body` is (self = argument 1), if any"""
+        if body.argc < 1:
+            return None
+        t1 = body.local_ty(1)
+        for ty in self.invariants:
+            if re.search(r"(^|[ :<&])%s(<|$)" % re.escape(ty), t1) and t1.startswith("&"):
+                return ty
+        return None
+
+    def inv_rows_at(self, ctx, ty, field_val):
+        out = []
+        for fact in self.invariants[ty]:
+            l = self.post_lin(ctx, fact, lambda i: None, field_val)
+            if l is None:
+                return None
+            out.append(l)
+        return out
+
+    def inv_obligations(self, ctx):
+        """type invariants: established by every constructor expression, and re-established at every exit of a method that
+        may have changed the fields (each `_0 = ..` site, where the field versions are still those of one path)"""
+        b = ctx.b
+        out = []
+        for ty, rows in self.invariants.items():
+            for n in b.nodes:
+                if n.kind == "assign" and n.ev.get("rv") == "agg" and (n.ev.get("adt") or "").split("<")[0].endswith("::" + ty):
+                    names = n.ev.get("fields") or []
+                    vals = {nm: ctx.f.operand(o, n.id) for nm, o in zip(names, n.ev["ops"])}
+                    ob = Ob(n.id, "Invariant", b.where(n.id))
+                    ob.desc = "%s invariant established by this constructor expression" % ty
+                    ob.goals = self.inv_rows_at(ctx, ty, lambda root, name: vals.get(name))
+                    out.append(ob)
+        ty = self.inv_type(b)
+        if ty is not None:
+            fields = {spec[2] for row in self.invariants[ty] for (c_, spec) in row[:-1]}
+            clobbered = bool(ctx.f.mut_calls_of(1)) or any(ctx.f.field_store(n.id, 1, fn) for n in b.nodes for fn in fields)
+            if clobbered:
+                for n in b.nodes:
+                    if n.kind in ("assign", "call") and ((n.ev.get("dst") or n.ev.get("dest") or {}).get("l") == 0) and not (n.ev.get("dst") or n.ev.get("dest"))["p"]:
+                        ob = Ob(n.id, "Invariant", b.where(n.id))
+                        ob.desc = "%s invariant holds when the method returns from here" % ty
+                        ob.goals = self.inv_rows_at(ctx, ty, lambda root, name: ctx.f.field_value_at(1, name, n.id))
+                        out.append(ob)
+        return out
+
+    def inv_state_facts(self, ctx, p):
+        ty = self.inv_type(ctx.b)
+        if ty is None:
+            return []
+        b = ctx.b
+        fields = {spec[2] for row in self.invariants[ty] for (c_, spec) in row[:-1]}
+        stores = any(ctx.f.field_store(n.id, 1, fn) for n in b.nodes for fn in fields)
+        own = all((ty + "::") in callee_name(b.nodes[c].ev) for c in ctx.f.mut_calls_of(1))
+        if not stores and own:
+            # the fields only ever change inside other methods of the type, each of which re-establishes the invariant:
+            # whatever version is current at p satisfies it
+            return self.inv_rows_at(ctx, ty, lambda root, name: ctx.f.field_value_at(1, name, p)) or []
+        return self.inv_entry_facts(ctx) + self.inv_after_call_facts(ctx, p)
+
+    def inv_entry_facts(self, ctx):
+        ty = self.inv_type(ctx.b)
+        if ty is None:
+            return []
+        return self.inv_rows_at(ctx, ty, lambda root, name: ctx.f.field_value_at(1, name, ctx.b.entry)) or []
+
+    def inv_after_call_facts(self, ctx, p):
+        """after a `&mut self` method call on an invariant type returned (Ok or Err), the invariant holds for the new field values"""
+        b = ctx.b
+        ty = self.inv_type(b)
+        if ty is None:
+            return []
+        out = []
+        for c in ctx.f.mut_calls_of(1):
+            if p != c and p in self.node_dom(b, c):
+                nm = callee_name(b.nodes[c].ev)
+                if ("::" + ty + "::") not in nm.replace("<'a>::", "").replace("<'_>::", "") and (ty + "::") not in nm:
+                    continue
+                rows = self.inv_rows_at(ctx, ty, lambda root, name: ctx.f.field_after_call(1, name, c))
+                out += rows or []
+        return out
+
+    def post_obligations(self, ctx):
+        """in a function that carries a postcondition: every `Ok` return site must establish it (fields as they are at exit)"""
+        b = ctx.b
+        out = []
+        for pat, facts in self.posts.items():
+            if not path_matches(b.path, pat):
+                continue
+            sites = [n for n in b.nodes if n.kind == "assign" and not n.ev["dst"]["p"] and n.ev["dst"]["l"] == 0]
+            for n in sites:
+                ob = Ob(n.id, "Post", b.where(n.id))
+                if n.ev.get("rv") == "agg" and n.ev.get("var") == "Err":
+                    continue
+                ob.desc = "postcondition of %s at this Ok return" % pat
+                if not (n.ev.get("rv") == "agg" and n.ev.get("var") == "Ok"):
+                    v = ctx.f.nodeval(n.id)
+                    if v.k == "call" and path_matches(v.extra, "FromResidual::from_residual"):
+                        continue          # `?` propagating an error
+                    ob.goals = None
+                    out.append(ob)
+                    continue
+                goals = []
+                for fact in facts:
+                    l = self.post_lin(ctx, fact,
+                                      lambda i: E("arg", ty=b.local_ty(i), extra=(i, b.local_name(i))),
+                                      lambda root, name: ctx.f.field_value_at(root, name, n.id))
+                    if l is None:
+                        goals = None
+                        break
+                    goals.append(l)
+                ob.goals = goals
+                out.append(ob)
+        return out
+
+    def call_post_facts(self, ctx, call_e):
+        """facts the caller may assume once `call_e` (a call to a function with a postcondition) has returned Ok"""
+        out = []
+        for pat, facts in self.posts.items():
+            if not path_matches(call_e.extra, pat) or not isinstance(call_e.nid, int):
+                continue
+            for fact in facts:
+                def field_val(root, name):
+                    if root - 1 >= len(call_e.a):
+                        return None
+                    base = call_e.a[root - 1]
+                    if base.k != "arg":
+                        return None
+                    return ctx.f.field_after_call(base.extra[0], name, call_e.nid)
+                l = self.post_lin(ctx, fact, lambda i: call_e.a[i - 1] if i - 1 < len(call_e.a) else None, field_val)
+                if l is not None:
+                    out.append(l)
+        return out
+
     def obligations(self, ctx):
         obs = getattr(ctx, "_obs", None)
         if obs is not None:
@@ -1475,6 +1771,8 @@ class Engine:
         ctx._obs = obs = []
         b = ctx.b
         f = ctx.f
+        obs.extend(self.post_obligations(ctx))
+        obs.extend(self.inv_obligations(ctx))
         for n in b.nodes:
             if n.kind == "assert":
                 msg = n.ev.get("msg", "")
@@ -1708,4 +2006,4 @@ class Ob:
     @property
     def runtime_checked(self):
         # the program itself panics when these fail, so code after them may rely on them
-        return self.kind not in ("AllocSize", "Contract")
+        return self.kind not in ("AllocSize", "Contract", "Post", "Progress", "DeviceRange", "Invariant")
